@@ -22,7 +22,7 @@ static Bytes small_plain(Rng &rng, size_t maxn) {
 struct C19 : Driver {
   const char *prop() const override { return "C19"; }
   const char *level() const override { return "exploration"; }
-  const char *variants(int) const override { return "plain ndebug/4"; }   // assertion-free build = the shipped semantics
+  const char *variants(int) const override { return "plain ndebug/4 preempt/4"; }   // ndebug: assertion-free build = the shipped semantics; preempt: decision points inside unsynchronised code too
   uint64_t ncases(int tier) const override { return tier ? 2000000 : 200000; }
   std::string rule() const override {
     return "case = lbzip2 -cdf (any clustering/order of the three flags) on stdin that does not start with BZh1-9: sizes 0-5, around k*G-2..k*G+2 for copy buffer size G (shipped 65536 and, via hook H1, 4..4096 so that many buffers are cheap), "
@@ -610,10 +610,10 @@ static Registrar r17(new C17);
 struct C18 : Driver {
   const char *prop() const override { return "C18"; }
   const char *level() const override { return "exploration"; }
-  const char *variants(int) const override { return "plain ndebug/4"; }   // assertion-free build = the shipped semantics
+  const char *variants(int) const override { return "plain ndebug/4 preempt/4"; }   // ndebug: assertion-free build = the shipped semantics; preempt: decision points inside unsynchronised code too
   uint64_t ncases(int tier) const override { return tier ? 300000 : 30000; }
   std::string rule() const override {
-    return "case = 2-6 FILE operands mixing compressible, incompressible, empty, multi-block, skipped (compressed suffix, missing, hard-linked) and - for decompression - one corrupt operand at a random position; both directions, --sequential over-weighted (its tokens are statics that outlive a run), -k/-c random. "
+    return "case = 2-6 FILE operands mixing compressible, incompressible, empty, multi-block, skipped (compressed suffix, missing, hard-linked) and - for decompression - one corrupt operand at a random position; both directions, --sequential over-weighted (its tokens are statics that outlive a run), -k/-c random; with -c -d half of the lists also get -f and non-bzip2 operands that are copied through. "
            "The list is processed in ONE simulated invocation and again as one fresh invocation per operand, each under its own seeded schedule; oracle: per operand the same file-system effect and output bytes; combined status 4 if any operand was skipped with a warning else 0; "
            "with a corrupt operand status 1, earlier operands complete, later ones untouched. State leaking between operands also trips the conservation asserts / capacity monitors of the later run. distinct_nontrivial = distinct (direction, flags, operand-kind sequence)";
   }
@@ -631,12 +631,17 @@ struct C18 : Driver {
     if (seq) r.argv.push_back("-u");
     if (keep) r.argv.push_back("-k");
     if (tostdout) r.argv.push_back("-c");
-    int corrupt_at = dec && rng.below(3) == 0 ? (int)rng.below(nop) : -1;
+    bool forcecopy = dec && tostdout && rng.below(2);      // -cdf: operands that are not bzip2 are copied through
+    if (forcecopy) { r.argv.push_back("-f"); r.copy_granul = rng.below(3) ? (16u << rng.below(9)) : 0; }
+    c.p["forcecopy"] = forcecopy;
+    int corrupt_at = dec && !forcecopy && rng.below(3) == 0 ? (int)rng.below(nop) : -1;
     c.p["corrupt_at"] = corrupt_at;
     uint64_t kinds = 0;
     for (int i = 0; i < nop; i++) {
       int kind = (int)rng.below(10);   // 0 compressible 1 incompressible 2 empty 3 multi-block 4 suffix-skip 5 missing 6 hardlink 7 output-exists 8.. compressible
       if (i == corrupt_at) kind = 20;
+      if (forcecopy && (kind == 6 || kind == 5)) kind = 0;        // with -f: no link-count skip; keep the model simple
+      if (forcecopy && rng.below(2)) kind = 30;                    // a non-bzip2 operand, copied
       kinds = kinds * 23 + kind;
       Bytes plain;
       switch (kind) {
@@ -647,7 +652,8 @@ struct C18 : Driver {
       }
       std::string name = std::string(1, (char)('a' + i));
       FileSpec f;
-      if (dec) { f.name = name + (kind == 4 ? ".dat" : ".bz2"); f.data = lib_multistream(rng, plain, 1 + (int)rng.below(2)); if (kind == 20 && f.data.size() > 12) { size_t pos = 10 + rng.below(f.data.size() - 10); f.data[pos] ^= 0x20; if (rng.below(2)) f.data.resize(pos + 1); } }
+      if (dec && kind == 30) { f.name = name + ".txt"; f.data = gen::random_bytes(rng, rng.below(3) ? rng.below(5000) : rng.below(200000), 256); if (f.data.size() >= 3 && f.data[0] == 'B' && f.data[1] == 'Z') f.data[0] = 'b'; }
+      else if (dec) { f.name = name + (kind == 4 ? ".dat" : ".bz2"); f.data = lib_multistream(rng, plain, 1 + (int)rng.below(2)); if (kind == 20 && f.data.size() > 12) { size_t pos = 10 + rng.below(f.data.size() - 10); f.data[pos] ^= 0x20; if (rng.below(2)) f.data.resize(pos + 1); } }
       else { f.name = name + (kind == 4 ? ".bz2" : ".txt"); f.data = plain; }
       if (kind == 6) f.nlink_extra = 1;
       c.p["kind" + std::to_string(i)] = kind;
@@ -698,6 +704,7 @@ struct C18 : Driver {
       if (fatal_at >= 0 && i >= fatal_at) break;
       int k = (int)c.p.at("kind" + std::to_string(i));
       if (k == 5 || (k == 4 && !dec) || (k == 6 && !c.p.at("keep") && !tostdout) || (k == 7 && !tostdout)) model_warn = true;
+      if (c.p.count("forcecopy") && c.p.at("forcecopy") && k == 5) model_warn = true;
     }
     if (fatal_at < 0 && model_warn != any4) return Verdict::fail("status-rule", std::string("separate invocations returned ") + (any4 ? "4" : "0") + " but the documented rule (4 iff an operand is skipped with a warning) gives " + (model_warn ? "4" : "0") + " (" + c.data_desc + ")");
     int want = fatal_at >= 0 ? 1 : any4 ? 4 : 0;
